@@ -57,6 +57,11 @@ def fchebyshev(x, m):
         dt = x.dtype
     except AttributeError:
         dt = np.float64
+    if np.dtype(dt).kind != 'f':
+        #
+        # Polynomials of integer abscissae are not integers.
+        #
+        dt = np.float64
     leg = np.ones((m, n), dtype=dt)
     if m >= 2:
         leg[1, :] = x
@@ -93,6 +98,11 @@ def fchebyshev_split(x, m):
     try:
         dt = x.dtype
     except AttributeError:
+        dt = np.float64
+    if np.dtype(dt).kind != 'f':
+        #
+        # Polynomials of integer abscissae are not integers.
+        #
         dt = np.float64
     leg = np.ones((m, n), dtype=dt)
     try:
@@ -132,6 +142,11 @@ def fpoly(x, m):
     try:
         dt = x.dtype
     except AttributeError:
+        dt = np.float64
+    if np.dtype(dt).kind != 'f':
+        #
+        # Polynomials of integer abscissae are not integers.
+        #
         dt = np.float64
     leg = np.ones((m, n), dtype=dt)
     if m >= 2:
@@ -399,7 +414,7 @@ class TraceSet(object):
         do_jump = self.has_jump and (not ignore_jump)
         if xpos is None:
             xpos = djs_laxisgen([self.nTrace, self.nx], iaxis=1) + self.xmin
-        ypos = np.zeros(xpos.shape, dtype=xpos.dtype)
+        ypos = np.zeros(xpos.shape, dtype=(xpos.dtype if xpos.dtype.kind == 'f' else 'd'))
         for iTrace in range(self.nTrace):
             xvec = self.xnorm(xpos[iTrace, :], do_jump)
             legarr = self._func_map[self.func](xvec, self.ncoeff)
